@@ -818,6 +818,11 @@ def part_multi(out, rng, tier):
                     prior_names.append(None)
             ops = gen_mhistory(params3, rng, 5 if tier == "quick" else 8, prior_names)
             raw0 = [getattr(Q["owner"], Q["leaf"]).detach().reshape(-1)[0].item() for Q in params3]
+            if not all(math.isfinite(r) for r in raw0):
+                k = [math.isfinite(r) for r in raw0].index(False)
+                out.fail("multi:%s:%s:%s:non-finite-after-construction" % (how, type(m3).__name__, params3[k]["pub"]),
+                         "right after construction with its constraints parameter %s is not finite (raw %r)" % (params3[k]["pn"], raw0[k]), desc0)
+                break
             desc = dict(desc0, ops=[list(o) if not isinstance(o[2], list) else [o[0], o[1], o[2][:4]] for o in ops], raw0=raw0)
             key = "multi:%s:%s" % (how, type(m3).__name__)
             try:
@@ -834,7 +839,12 @@ def part_multi(out, rng, tier):
                 oi, k = bad[0] if bad else (0, 0)
                 out.fail("%s:%s:non-finite" % (key, params3[k]["pub"]), "after op %d parameter %s is not finite" % (oi, params3[k]["pn"]), desc)
                 continue
-            terms.append(mhistory_term(params3, raw0, list(zip(ops, tr))))
+            try:
+                term = mhistory_term(params3, raw0, list(zip(ops, tr)))
+            except Exception as e:      # noqa: BLE001 -- a value the model cannot take (non-finite)
+                out.fail("%s:history-not-representable:%s" % (key, type(e).__name__), "the recorded history cannot be handed to the model: %r" % e, desc)
+                continue
+            terms.append(term)
             plan.append((key, desc, ops, tr, params3))
     res = C.coq_run_cases("C17_multi" + TAGSFX, IMPORTS, RUN_DEF, terms, shard=max(8, (len(terms) + 15) // 16))
     for (key, desc, ops, tr, params3), r in zip(plan, res):
